@@ -219,6 +219,7 @@ class Typer:
         return unk(str(h))
 
     def iter_space(s, t):
+        if t[0] in ('map', 'dictmap') and len(t) > 2: return t[2]          # iterated in KEY order, which need not be the index order
         if t[0] in ('labs', 'map', 'lab', 'dictmap'): return t[1]
         if t[0] == 'idxs': return t[2]
         if t[0] == 'dict': return ('ORD', t[1])
@@ -245,9 +246,10 @@ class Typer:
         if at[1] == 'self': return unk('self.' + a)
         if b[0] == 'map':
             if a == 'N': return ('size', b[1])
-            if a == 'keys': return ('labs', b[1])
-            if a == 'values': return ('idxs', b[1], b[1])
-            if a == 'mapping': return ('dictmap', b[1])
+            ko = b[2] if len(b) > 2 else b[1]          # order in which the keys are listed
+            if a == 'keys': return ('labs', ko)
+            if a == 'values': return ('idxs', b[1], ko)
+            if a == 'mapping': return ('dictmap', b[1]) + ((b[2],) if len(b) > 2 else ())
         if b[0] == 'arr':
             if a == 'T': return ('arr', tuple(reversed(b[1])))
             if a in ('real', 'imag'): return b
@@ -409,6 +411,7 @@ class Typer:
                 ident = s.net_ident(net) if net is not None else 0
                 nt = s.ty(net) if net is not None else ('net', 0)
                 if nt[0] == 'net': ident = nt[1]
+                if isinstance(sp, tuple) and sp[:1] == ('KO',): return ('map', _retag(sp[1], ident), _retag(sp[2], ident))
                 return ('map', _retag(sp, ident))
             if name in s.summaries:
                 return s.instantiate(name, args, kw, at)
@@ -677,7 +680,7 @@ class Typer:
         if tag in ('list', 'tuple', 'iter', 'set'):
             a = s.ty(k[2]) if len(k) > 2 else unk('empty')
             if a[0] == 'dict': return ('labs', ('ORD', a[1]))
-            if a[0] == 'map': return ('labs', a[1])
+            if a[0] == 'map': return ('labs', a[2] if len(a) > 2 else a[1])
             return a
         if tag == 'keys':
             a = s.ty(k[2])
@@ -881,6 +884,12 @@ class Typer:
                     vat = _poly_items(eltk[1][1])
                     if eltk[1][0] == want and vat and len(vat) == 1 and len(vat[0][0]) == 1 and vat[0][0][0][0] == ('idx', 0, L):
                         return ('dictmap', vt[1])
+                # {l: position[l] for l in L} with position = the places in sorted(L): indices follow the sorted order, the KEYS are listed in the
+                # order of L -- whoever iterates the keys does not visit them in index order
+                vat = _poly_items(eltk[1][1])
+                if vt[2] is None and vat and len(vat) == 1 and len(vat[0][0]) == 1 and isinstance(vat[0][0][0][0], tuple) and vat[0][0][0][0][:1] == ('[]',) \
+                        and vat[0][0][0][0][2] == eltk[1][0] and same(_sorted_space(res), vt[1]) is True:
+                    return ('dictmap', vt[1]) if same(res, vt[1]) is True else ('dictmap', vt[1], res)
                 return ('dictmap', U('LabelMapping'))
             if src[0] in ('components',) or (kt[0] in ('lab', 'num', 'unk') and vt[0] in ('num', 'unk')):
                 name = show(res).replace('#', '_')
@@ -902,7 +911,7 @@ class Typer:
         cls, fields = k[1], dict(k[2])
         if cls == 'LabelMapping':
             m = s.ty(fields.get('mapping')) if 'mapping' in fields else unk('mapping')
-            if m[0] == 'dictmap': return ('map', m[1])
+            if m[0] == 'dictmap': return ('map',) + tuple(m[1:])
             return ('map', U('LabelMapping'))
         if cls == 'Network':
             br, zero = fields.get('branches'), fields.get('node_zero_label')
